@@ -238,6 +238,43 @@ func runC01(r *core.Run) {
 	}
 
 	corpusSub(r, "structured-corpus/all+attrall+xhtml", core.MustCfg("all+attrall+xhtml"), nil, func(s *core.Sub, cv *core.Conv, w []byte) { c01Case(s, cv, w) })
+	// every Unicode scalar value on both sides of a soft line break and inside emphasis, under the configurations that
+	// classify characters (East Asian width and line breaks, punctuation for flanking, case folding for labels)
+	for _, cn := range []string{"x:cjk-css3", "all+cjk+autoid+attr"} {
+		cfg := core.MustCfg(cn)
+		s := r.Sub("rune-sweep/"+cn, "for EVERY Unicode scalar value r (0..0x10FFFF without surrogates): the document 'a r LF r b', blank line, '*r* [r]', blank line, '[R]: /u' under "+cn+": no panic, no error, Parse+Render = Convert")
+		s.Planned = 0x110000 - 0x800
+		s.Bound = "all 1 112 064 scalar values"
+		core.ForEachIndex(0x110000/256, core.Workers(), func(w int) func(int) {
+			cv := core.NewConv(cfg)
+			var doc []byte
+			return func(hi int) {
+				for lo := 0; lo < 256; lo++ {
+					r := rune(hi<<8 | lo)
+					if r >= 0xD800 && r <= 0xDFFF {
+						continue
+					}
+					rs := string(r)
+					doc = append(doc[:0], "a"+rs+"\n"+rs+"b\n\n*"+rs+"* ["+rs+"]\n\n["+rs+"]: /u\n"...)
+					out, err, pan := cv.Convert(doc)
+					if pan != nil {
+						s.Violate("panic:"+cv.Site, cfg.String(), doc, nil, fmt.Sprintf("Convert panicked on U+%04X: %v", r, pan), "normal return", "panic")
+						cv = core.NewConv(cfg)
+					} else if err != nil {
+						s.Violate("error:convert", cfg.String(), doc, nil, "Convert returned error: "+err.Error(), "nil error", err.Error())
+					}
+					s.Evals.Add(1)
+					if lo == 0 && hi%512 == 0 {
+						s.Distinct(core.Hash(out))
+						s.AddSample(core.Q(doc))
+					}
+				}
+			}
+		}, r.Expired)
+		s.States.Store(s.Evals.Load())
+		s.Transitions.Store(s.Evals.Load())
+		s.Done()
+	}
 	// runs of documents sharing one parser.Context (parser.WithContext): no panic, no error
 	sharedCtxGuard = c01Busy
 	for _, cn := range []string{"all+autoid+attr+unsafe+xhtml", "core"} {
